@@ -342,6 +342,16 @@ Fixpoint extract (foff : Z) (offs : list Z) : list Z * Z :=
               else let (ms, f) := extract (o + 1) r in (o :: ms, f)
   end.
 
+(* the buffer growth rule of _handle_fetch_response's `except ConsumerFetchSizeTooSmall`   consumer.py:959-980:
+   x16 while the buffer is at most 1 MiB, else x2; unlimited when max_buffer_size is None, otherwise clipped to it;
+   None = already at the maximum (the consumer fails).  Shared with C12. *)
+Definition grow_buffer (cur : Z) (mx : option Z) : option Z :=
+  let factor := if cur <=? 1048576 then 16 else 2 in                               (* 963-965 *)
+  match mx with
+  | None => Some (cur * factor)                                                    (* 966-968 *)
+  | Some m => if cur <? m then Some (Z.min (cur * factor) m) else None             (* 969-980 *)
+  end.
+
 Definition pop_plan : M (Z * Z) :=
   s <- get ;;
   match s_plan s with
@@ -553,13 +563,11 @@ Definition body (k : kont) : M unit :=
       upd (set_req None) ;;;                                                       (* 896 *)
       let (msgs, foff') := extract (s_foff s) offs in                              (* 897-930 *)
       upd (set_foff foff') ;;;
-      x <- (if ts then                                                             (* 931-957 *)
-              let factor := if s_buf s <=? 1048576 then 16 else 2 in
-              match c_maxbuf (s_cf s) with
-              | None => upd (set_buf (s_buf s * factor)) ;;; ret (Ok false)
-              | Some mb => if s_buf s <? mb then upd (set_buf (Z.min (s_buf s * factor) mb)) ;;; ret (Ok false)
-                           else r <- try (startd_errback FK_TOOSMALL) ;;
-                                ret (match r with Ok _ => Ok true | Exc k => Exc k end)
+      x <- (if ts then                                                             (* 959-985 *)
+              match grow_buffer (s_buf s) (c_maxbuf (s_cf s)) with
+              | Some b => upd (set_buf b) ;;; ret (Ok false)
+              | None => r <- try (startd_errback FK_TOOSMALL) ;;                   (* 972-980 *)
+                        ret (match r with Ok _ => Ok true | Exc k => Exc k end)
               end
             else ret (Ok false)) ;;
       (match msgs with                                                             (* 959-964 finally *)
